@@ -546,6 +546,19 @@ X05V(r) == FirstFail(<<
 \*  r.a = digest of what the lines say, r.b = digest of what the parsed chart holds, r.what = the clause)
 BlocksV(r) == FirstFail(<< <<r.what, r.a = r.b>> >>)
 
+\* X06 (NoteRuns.tla): r.datas = <<[t, i]>> the N data in file order (any order), r.got = <<[t, lanes]>> the note events
+RECURSIVE RunEndOf(_, _)
+RunEndOf(ds, k) == IF k + 1 <= Len(ds) /\ ds[k + 1].t = ds[k].t THEN RunEndOf(ds, k + 1) ELSE k
+RECURSIVE RunsOf(_)
+RunsOf(ds) == IF ds = <<>> THEN <<>>
+              ELSE LET e == RunEndOf(ds, 1)
+                   IN <<[t |-> ds[1].t, lanes |-> { ds[k].i : k \in 1..e }]>> \o RunsOf(SubSeq(ds, e + 1, Len(ds)))
+X06V(r) == IF r.raised # "" THEN <<"fail", "body-of-plain-note-lines-under-one-tempo-rejected">>
+           ELSE FirstFail(<<
+             <<"one-event-per-maximal-run-in-file-order",
+                 [k \in DOMAIN r.got |-> [t |-> r.got[k].t, lanes |-> SeqSet(r.got[k].lanes)]] = RunsOf(r.datas)>>
+           >>)
+
 VerdictOf(p, r) ==
   IF "kind" \in DOMAIN r /\ r.kind = "blocks" THEN BlocksV(r) ELSE
   CASE p = "C02" -> C02V(r)
@@ -557,6 +570,7 @@ VerdictOf(p, r) ==
     [] p = "X02" -> X02V(r)
     [] p = "X03" -> X03V(r)
     [] p = "X05" -> X05V(r)
+    [] p = "X06" -> X06V(r)
     [] p = "C07" -> C07V(r)
     [] p = "C09" -> C09V(r)
     [] p = "C10" -> C10V(r)
